@@ -237,7 +237,7 @@ func ruleFiltered(p *Prog, r *Result) {
 			n := 0
 			for _, b := range fn.Blocks {
 				ret := retOf(b)
-				if ret == nil || len(ret.Results) < 2 || isNilConst(ret.Results[0]) {
+				if ret == nil || len(ret.Results) < 2 || isNilConst(retVal(ret, 0)) {
 					continue
 				}
 				n++
@@ -254,11 +254,11 @@ func ruleFiltered(p *Prog, r *Result) {
 					}
 					// the filtered pair is built from the returned key (and value)
 					kvp := c.Call.Args[1]
-					if !dependsOn(kvp, ret.Results[0], 4) {
+					if !dependsOn(kvp, retVal(ret, 0), 4) {
 						why = "the pair given to Filter is not built from the returned key"
 						return
 					}
-					if !dependsOn(kvp, ret.Results[1], 4) {
+					if !dependsOn(kvp, retVal(ret, 1), 4) {
 						why = "the pair given to Filter is not built from the returned value"
 						return
 					}
@@ -282,10 +282,10 @@ func ruleFiltered(p *Prog, r *Result) {
 			seenApp := map[*ssa.Call]bool{}
 			for _, b := range fn.Blocks {
 				ret := retOf(b)
-				if ret == nil || len(ret.Results) < 1 || isNilConst(ret.Results[0]) {
+				if ret == nil || len(ret.Results) < 1 || isNilConst(retVal(ret, 0)) {
 					continue
 				}
-				for _, app := range appendsInto(ret.Results[0]) {
+				for _, app := range appendsInto(retVal(ret, 0)) {
 					if seenApp[app] {
 						continue
 					}
@@ -564,7 +564,7 @@ func ruleAdjustCall(p *Prog, r *Result) {
 		okAll := true
 		for _, b := range fn.Blocks {
 			ret := retOf(b)
-			if ret == nil || isNilConst(ret.Results[0]) {
+			if ret == nil || isNilConst(retVal(ret, 0)) {
 				continue
 			}
 			dom := false
@@ -847,7 +847,7 @@ func ruleCacheCopy(p *Prog, r *Result) {
 				if cached != nil {
 					for _, b := range fn.Blocks {
 						if ret := retOf(b); ret != nil && len(ret.Results) > 0 {
-							if derivesFromNoElem(ret.Results[0], func(x ssa.Value) bool { return x == cached }) {
+							if derivesFromNoElem(retVal(ret, 0), func(x ssa.Value) bool { return x == cached }) {
 								bad = "the cached chunk itself is returned at " + p.InstrPos(ret) + " (callers overwrite their operand slices in place and would corrupt the cache)"
 							}
 						}
